@@ -35,11 +35,19 @@ func zzInv(t *torrent, sto *zzStorage) {
 	}
 }
 
+// zzMustStop: the last thing that happened to the torrent was a stop command
+// or a fatal error, with no start or verify command since: the next time the
+// stop sequence finishes, the torrent has to be Stopped (a stop that is undone
+// by a pending verification request is a dropped command; an error that
+// restarts the torrent over and over never ends).
+var zzMustStop bool
+
 // zzEventStep performs one event the loop could deliver in the current state.
 func zzEventStep(t *torrent, sto *zzStorage) {
 	switch vrt.Choice("event", 6) {
 	case 0:
 		vrt.Note("start")
+		zzMustStop = false
 		before := t.status()
 		t.start()
 		if before == Stopped {
@@ -52,22 +60,29 @@ func zzEventStep(t *torrent, sto *zzStorage) {
 		}
 	case 1:
 		vrt.Note("stop")
+		zzMustStop = true
 		t.stop(nil)
 		st := t.status()
 		vrt.Assert(st == Stopping || st == Stopped, "stop did not stop the torrent")
 	case 2:
 		vrt.Note("verify")
+		zzMustStop = false
 		t.handleVerifyCommand()
 	case 3:
 		vrt.Assume(t.status() == Stopping)
 		vrt.Note("stop announcer done")
 		t.handleStopped()
+		if zzMustStop {
+			vrt.Cover(true, "stop sequence finished after a stop command or an error")
+			vrt.Assert(t.status() == Stopped, "torrent restarted by itself after a stop command or a fatal error (pending verification request not cancelled)")
+		}
 	case 4:
 		vrt.Assume(t.allocator != nil)
 		vrt.Note("allocation done")
 		al := t.allocator
 		if vrt.Bool("allocation_error") {
 			al.Error = vrt.ErrIO
+			zzMustStop = true
 		} else {
 			al.HasExisting = vrt.Bool("has_existing")
 			al.HasMissing = vrt.Bool("has_missing")
@@ -90,6 +105,7 @@ func zzEventStep(t *torrent, sto *zzStorage) {
 		ve := t.verifier
 		if vrt.Bool("verification_error") {
 			ve.Error = vrt.ErrIO
+			zzMustStop = true
 		} else {
 			ve.Bitfield = bitfield.New(zzNumPieces)
 			for i := uint32(0); i < zzNumPieces; i++ {
@@ -115,6 +131,7 @@ func zzLifecycle(steps int) {
 	}
 	sto := &zzStorage{}
 	t := zzNewTorrent(info, bf, sto)
+	zzMustStop = false
 	zzInv(t, sto)
 	for i := 0; i < steps; i++ {
 		zzEventStep(t, sto)
